@@ -763,14 +763,16 @@ Section Domains.
 End Domains.
 
 (* ================================================================================================
-   Witnesses on the CURRENT code: the premises of the theorems above are necessary. *)
-(* F27: Markdown `> \t\t!` — pulldown-cmark synthesises spaces for a partially consumed tab, the
-   text of the event is longer than its source range and harper places a token past the end of
-   the 5-character source.  Any pattern leaf that reads the token's text then panics in
-   Span::get_content ("Could not get position Span { start: 4, end: 6 } …"). *)
+   Witnesses on the model: the premises of the theorems above are necessary. *)
+(* The token that finding F27 (fixed by 548c418) used to produce for Markdown `> \t\t!`:
+   pulldown-cmark synthesises spaces for a partially consumed tab, the text of the event was longer
+   than its source range and harper placed a token past the end of the 5-character source.  Any
+   pattern leaf that reads such a token's text panics in Span::get_content ("Could not get position
+   Span { start: 4, end: 6 } …") — so "tokens inside the source" cannot be dropped from
+   matches_bounded; since 548c418 the front-ends establish it (monitored on every searched document). *)
 Definition f27_src : text := ch [62; 32; 9; 9; 33].
 Definition f27_tok : tok := mktok (mkspan 4 6) 1 1%N 0.
-Lemma token_past_end_refuted : forall leaf oracle,
+Lemma premise_tokens_inside_necessary : forall leaf oracle,
   send (tspan f27_tok) > length f27_src /\
   matches leaf oracle (PWordSet [w_a; w_an]) [f27_tok] f27_src = Panic PIndex /\
   run_on_chunk leaf oracle (PSeq [PWordSet [w_a; w_an]]) [f27_tok] f27_src = Panic PIndex.
